@@ -267,8 +267,40 @@ def run_case(case: dict) -> CaseResult:
 
         for i, c in enumerate(calls):
             loop.sim_at(t0 + c["at"] * TICK, start_call, i)
-        for tick, tid, key in case.get("msgs", []):
-            sess.device_send_at(t0 + tick * TICK, by_id[tid](key=key) if tid != PONG else by_id[tid]())
+        mk = lambda tid, key: by_id[tid](key=key) if tid != PONG else by_id[tid]()
+        if case.get("split") and not (case.get("close") and case["close"][1] in ("discreq", "garbage")):
+            # (not together with a close that is itself bytes from the device: they would land inside a frame)
+            # reads not aligned to frames: the first k bytes of message j ride at the end of the chunk that completes
+            # message j-1 (stream order = arrival order); message j has ARRIVED when its last byte has, at its own tick
+            order = sorted(range(len(case["msgs"])), key=lambda j: (case["msgs"][j][0], j))
+            sp = {int(a): int(b) for a, b in case["split"]}
+            cache: dict[int, bytes] = {}
+
+            def frame(pos: int) -> bytes:
+                if pos not in cache:
+                    _t, tid, key = case["msgs"][order[pos]]
+                    cache[pos] = sess.dsess.encode(mk(tid, key))
+                return cache[pos]
+
+            def cut(pos: int) -> int:
+                return max(0, min(sp.get(pos, 0), len(frame(pos)) - 1)) if pos > 0 else 0
+
+            def go(pos: int) -> None:
+                tr = sess.dsess.transport
+                if tr.closing:
+                    env.log("device_send_skipped")
+                    return
+                f = frame(pos)
+                data = f[cut(pos):]
+                if pos + 1 < len(order):
+                    data += frame(pos + 1)[:cut(pos + 1)]
+                tr.feed(data)
+
+            for pos, j in enumerate(order):
+                loop.sim_at(t0 + case["msgs"][j][0] * TICK, go, pos)
+        else:
+            for tick, tid, key in case.get("msgs", []):
+                sess.device_send_at(t0 + tick * TICK, mk(tid, key))
         for tick, i in case.get("cancels", []):
             loop.sim_at(t0 + tick * TICK, env.cancel, f"call{i}")
 
@@ -495,6 +527,8 @@ def _case(draw, tier):
                     m[0] += 1
         if case["close"][1] not in ("writefail", "pingfail") and draw(st.integers(0, 2)) == 0:
             case["predisc"] = max(0, case["close"][0] - draw(st.sampled_from([0, 1, 2, 8, 100, 600])))
+    if len(msgs) >= 2 and draw(st.integers(0, 2)) == 0:
+        case["split"] = draw(st.lists(st.tuples(st.integers(1, len(msgs) - 1), st.sampled_from([1, 2, 3, 4, 5, 6])).map(list), min_size=1, max_size=4, unique_by=lambda x: x[0]))
     if draw(st.integers(0, 2)) == 0:
         for c in calls:
             if draw(st.booleans()):
@@ -526,6 +560,13 @@ def enumerated(tier):
                     "calls": [{"at": 0, "types": [26, 25], "append": ap, "stop": sp, "timeout": 1}, {"at": 0, "types": [26], "append": None, "stop": None, "timeout": 2}],
                     "msgs": [[1, 26, 0], [1, 25, 1], [1, 26, 1], [1, 26, 2], [256, 26, 1], [257, 25, 0]],
                 }
+    # a read ends inside the next message: the complete one in front is delivered once, the call written in between
+    # waits for ITS answer
+    for noise in (False, True):
+        for k in (1, 2, 3, 5):
+            yield {"noise": noise, "split": [[1, k], [2, k]], "calls": [{"at": 0, "types": [26], "append": None, "stop": ["key", 3], "timeout": 2}, {"at": 20, "types": [26], "append": None, "stop": None, "timeout": 2}],
+                   "msgs": [[8, 26, 1], [30, 26, 2], [40, 26, 3]]}
+            yield {"noise": noise, "split": [[1, k]], "calls": [{"at": 0, "types": [26, 25], "append": None, "stop": ["never"], "timeout": 1}], "msgs": [[8, 26, 1], [16, 25, 2]]}
     # a used-up unsubscribe callable is called again / a call lists its type twice, while another call waits on that type
     for noise in (False, True):
         for k in (0, 1, 2, 3):
